@@ -1,6 +1,7 @@
 package main
 
 import (
+	"os"
 	"fmt"
 	"go/token"
 	"go/types"
@@ -31,50 +32,157 @@ func propC19(c *Ctx) {
 	isLoopback := w.Fn("shovel/web", "isLoopback")
 
 	c.Rule("R19.1", "every call of the protected handler inside Authn is guarded by disable_authn, by (!enable_loopback_authn && isLoopback), or by a valid session", 3)
+	// Decided as a reachability question that does not depend on where the
+	// three admissions are tested (in the wrapper, or in a boolean helper):
+	// assume disable_authn is false, no valid session, and the loopback
+	// admission does not apply (two scenarios: not loopback / loopback
+	// authentication enabled); cut the edges that contradict the assumption;
+	// the protected handler must then be unreachable.
 	fieldCondEdges := func(fn *ssa.Function, f *types.Var) (tru, fls []Edge) {
 		allInstrs(fn, func(in ssa.Instruction) {
-			u, ok := in.(*ssa.UnOp)
-			if !ok || u.Op != token.MUL {
+			var lf *types.Var
+			switch x := in.(type) {
+			case *ssa.UnOp:
+				if x.Op != token.MUL {
+					return
+				}
+				lf, _ = fieldOf(x.X)
+			case *ssa.Field:
+				lf, _ = fieldOf(x)
+			default:
 				return
 			}
-			if lf, _ := fieldOf(u.X); lf != f {
+			if lf != f {
 				return
 			}
-			t, fl := boolEdges(u)
+			t, fl := boolEdges(in.(ssa.Value))
 			tru, fls = append(tru, t...), append(fls, fl...)
 		})
 		return
 	}
-	disT, _ := fieldCondEdges(cl, fDisable)
-	_, loopF := fieldCondEdges(cl, fLoop)
-	var isLoopT []Edge
-	for _, call := range callsToFn(cl, isLoopback) {
-		// argument must be the request parameter
-		if p, ok := call.Call.Args[0].(*ssa.Parameter); ok && p.Parent() == cl {
-			t, _ := boolEdges(call)
-			isLoopT = append(isLoopT, t...)
+	isSessGet := func(call *ssa.Call) bool {
+		if calleeName(call) != "github.com/kr/session.Get" {
+			return false
 		}
-	}
-	var sessNil, sessNonNil []Edge
-	var sessGet *ssa.Call
-	for _, ci := range callsIn(cl) {
-		if call, ok := ci.(*ssa.Call); ok && calleeName(call) == "github.com/kr/session.Get" {
-			// config argument is &h.sess ; request argument is the handler's request
-			cfgOK := false
-			if fa, ok := call.Call.Args[2].(*ssa.FieldAddr); ok {
-				if f, _ := fieldOf(fa); f == fSess {
-					cfgOK = true
+		cfgOK := false
+		cfg := stripConv(call.Call.Args[2])
+		if u, ok := cfg.(*ssa.UnOp); ok {
+			if al, ok := u.X.(*ssa.Alloc); ok {
+				if cv := cellValue(al); cv != nil {
+					cfg = cv
 				}
 			}
-			_, reqOK := call.Call.Args[0].(*ssa.Parameter)
-			if cfgOK && reqOK {
-				sessGet = call
-				n, nn := nilTestEdges(call)
-				sessNil, sessNonNil = append(sessNil, n...), append(sessNonNil, nn...)
+		}
+		if fa, ok := cfg.(*ssa.FieldAddr); ok {
+			if f, _ := fieldOf(fa); f == fSess {
+				cfgOK = true
 			}
 		}
+		_, reqOK := call.Call.Args[0].(*ssa.Parameter)
+		return cfgOK && reqOK
 	}
-	c.Check("R19.1", "Authn/session.Get(r,_,&h.sess)", cl.Pos(), sessGet != nil && len(sessNil) > 0, "the session is read from the incoming request with this handler's own session config and its error is tested")
+	var sessGet *ssa.Call
+	type scen int
+	const (
+		notLoopback scen = iota
+		loopbackAuthnOn
+	)
+	var helperOK func(h *ssa.Function, d int) bool
+	admitCuts := func(fn *ssa.Function, sc scen, d int) *Cuts {
+		cuts := newCuts()
+		disT, _ := fieldCondEdges(fn, fDisable)
+		cuts.addEdges(disT)
+		for _, ci := range callsIn(fn) {
+			call, ok := ci.(*ssa.Call)
+			if !ok {
+				continue
+			}
+			switch {
+			case isSessGet(call):
+				sessGet = call
+				n, _ := nilTestEdges(call)
+				cuts.addEdges(n)
+			case staticCallee(call) == isLoopback:
+				if _, isP := call.Call.Args[0].(*ssa.Parameter); isP && sc == notLoopback {
+					t, _ := boolEdges(call)
+					cuts.addEdges(t)
+				}
+			default:
+				if h := regionCallee(call); h != nil && d < 2 && isRepoFunc(h) && h != isLoopback {
+					if b, isB := call.Type().Underlying().(*types.Basic); isB && b.Kind() == types.Bool && helperOK(h, d+1) {
+						t, _ := boolEdges(call)
+						cuts.addEdges(t)
+					}
+				}
+			}
+		}
+		if sc == loopbackAuthnOn {
+			lt, loopF := fieldCondEdges(fn, fLoop)
+			cuts.addEdges(loopF)
+			if os.Getenv("SHOVELCHECK_DEBUG") != "" {
+				fmt.Println("  debug", fnName(fn), "E true edges", len(lt), "false edges", len(loopF), "A-true", len(disT))
+				allInstrs(fn, func(in ssa.Instruction) {
+					if v, ok := in.(ssa.Value); ok {
+						if lf, _ := fieldOf(v); lf != nil {
+							fmt.Printf("     %T %s field=%s\n", in, in.String(), lf.Name())
+						}
+					}
+				})
+			}
+		}
+		return cuts.closeBoolPhis(fn)
+	}
+	// a boolean helper admits only under the same three conditions
+	helperMemo := map[*ssa.Function]bool{}
+	helperOK = func(h *ssa.Function, d int) bool {
+		if v, ok := helperMemo[h]; ok {
+			return v
+		}
+		helperMemo[h] = false
+		good := true
+		for _, sc := range []scen{notLoopback, loopbackAuthnOn} {
+			cuts := admitCuts(h, sc, d)
+			hit, _ := reach(entrySite(h), func(in ssa.Instruction) bool {
+				r, isR := in.(*ssa.Return)
+				if !isR {
+					return false
+				}
+				for _, lf := range phiLeaves(returnValues(r)[0]) {
+					switch v := lf.Val.(type) {
+					case *ssa.Const:
+						if v.Value != nil && v.Value.String() == "true" {
+							return true
+						}
+					case *ssa.BinOp:
+						// session.Get(...) == nil is false under the assumption
+						if call, ok := v.X.(*ssa.Call); ok && v.Op == token.EQL && isNilConst(v.Y) && isSessGet(call) {
+							continue
+						}
+						return true
+					case *ssa.Call:
+						if staticCallee(v) == isLoopback && sc == notLoopback {
+							continue
+						}
+						return true
+					default:
+						if lf2, _ := loadedField(lf.Val); lf2 == fDisable {
+							continue
+						}
+						return true
+					}
+				}
+				return false
+			}, cuts)
+			if hit {
+				good = false
+			}
+			if os.Getenv("SHOVELCHECK_DEBUG") != "" {
+				fmt.Println("  debug helperOK", fnName(h), "scenario", sc, "true-reachable:", hit, "cut edges:", len(cuts.Edges))
+			}
+		}
+		helperMemo[h] = good
+		return good
+	}
 	nNext := 0
 	var nextCalls []ssa.CallInstruction
 	for _, ci := range callsIn(cl) {
@@ -101,40 +209,44 @@ func propC19(c *Ctx) {
 		}
 		nNext++
 		nextCalls = append(nextCalls, ci)
-		a := guardedByEdges(cl, ci, disT)
-		b := guardedByEdges(cl, ci, loopF) && guardedByEdges(cl, ci, isLoopT)
-		s := guardedByEdges(cl, ci, sessNil)
-		why := map[bool]string{true: "", false: "reachable without any of the three admissions"}[a || b || s]
-		c.Check("R19.1", fmt.Sprintf("Authn/next#%d", nNext), instrPos(ci), a || b || s,
-			fmt.Sprintf("protected handler call: disable_authn=%v loopback=%v session=%v %s", a, b, s, why))
+	}
+	for i, ci := range nextCalls {
+		r1, _ := reach(entrySite(cl), isInstr(ci), admitCuts(cl, notLoopback, 0))
+		r2, _ := reach(entrySite(cl), isInstr(ci), admitCuts(cl, loopbackAuthnOn, 0))
+		why := ""
+		if r1 || r2 {
+			why = "reachable without any of the three admissions"
+		}
+		c.Check("R19.1", fmt.Sprintf("Authn/next#%d", i+1), instrPos(ci), !r1 && !r2,
+			fmt.Sprintf("protected handler call is unreachable when disable_authn is off, there is no valid session, and the request is not loopback (%v) / loopback authentication is on (%v) %s", !r1, !r2, why))
 	}
 	if nNext == 0 {
 		c.Violation("R19.1", "Authn/next", cl.Pos(), "the wrapper never calls the protected handler")
 	}
-	// failing arm: redirect to /login, no next
-	okFail := len(sessNonNil) > 0
-	for _, e := range sessNonNil {
-		redirect := false
-		reach(Site{e.To, -1}, func(in ssa.Instruction) bool {
-			if ci, ok := in.(ssa.CallInstruction); ok {
-				if calleeName(ci) == "net/http.Redirect" {
-					if u, ok := constString(ci.Common().Args[2]); ok && u == "/login" {
-						redirect = true
-					}
-				}
-				for _, n := range nextCalls {
-					if n == ci {
-						okFail = false
-					}
+	admitCuts(cl, notLoopback, 0)
+	for h := range helperMemo {
+		admitCuts(h, notLoopback, 1)
+	}
+	c.Check("R19.1", "Authn/session.Get(r,_,&h.sess)", cl.Pos(), sessGet != nil, "the session is read from the incoming request with this handler's own session config and its error is tested")
+	// whoever is not let through is redirected to /login: no exit without the
+	// protected handler or the redirect
+	{
+		cuts := newCuts()
+		for _, n := range nextCalls {
+			cuts.addInstr(n)
+		}
+		nRedirect := 0
+		for _, ci := range callsIn(cl) {
+			if calleeName(ci) == "net/http.Redirect" {
+				if u, ok := constString(ci.Common().Args[2]); ok && u == "/login" {
+					cuts.addInstr(ci)
+					nRedirect++
 				}
 			}
-			return false
-		}, nil)
-		if !redirect {
-			okFail = false
 		}
+		exit, _ := reach(entrySite(cl), isExit, cuts)
+		c.Check("R19.1", "Authn/no-session→redirect-login", cl.Pos(), nRedirect > 0 && !exit, "a request that is not let through is redirected to /login")
 	}
-	c.Check("R19.1", "Authn/no-session→redirect-login", cl.Pos(), okFail, "a request without a valid session is redirected to /login and the protected handler is unreachable from that arm")
 
 	// ---- R19.2 ----------------------------------------------------------
 	c.Rule("R19.2", "routes whose handler can write SQL or restart the manager are registered through Authn; routes protected today stay protected; no method registered twice", 9)
@@ -259,17 +371,23 @@ func propC19(c *Ctx) {
 	c.Rule("R19.3", "a session is issued only on POST and only when subtle.ConstantTimeCompare(form password, h.password) == 1", 2)
 	login := w.Fn("shovel/web", "(*Handler).Login")
 	fPw := w.Field("shovel/web", "Handler", "password")
+	// on the inlined view of Login: the comparison and the issuing of the
+	// session may each live in a helper (validPassword, startSession)
+	lreg := NewRegion(login)
 	var cmpOK []Edge
 	cmpSeen := false
-	for _, ci := range callsNamed(login, "crypto/subtle.ConstantTimeCompare") {
-		call := ci.(*ssa.Call)
+	for _, ci := range lreg.Calls() {
+		call, isCall := ci.(*ssa.Call)
+		if !isCall || calleeName(call) != "crypto/subtle.ConstantTimeCompare" {
+			continue
+		}
 		a0, a1 := call.Call.Args[0], call.Call.Args[1]
 		fromForm := func(v ssa.Value) bool {
 			conv, ok := v.(*ssa.Convert)
 			if !ok {
 				return false
 			}
-			fc, ok := conv.X.(*ssa.Call)
+			fc, ok := lreg.Resolve(conv.X).(*ssa.Call)
 			if !ok || calleeName(fc) != "(*net/http.Request).FormValue" {
 				return false
 			}
@@ -287,15 +405,49 @@ func propC19(c *Ctx) {
 				continue
 			}
 			n, okc := constInt(b.Y)
-			if !okc || n != 1 {
+			if !okc || n != 1 || (b.Op != token.EQL && b.Op != token.NEQ) {
 				continue
 			}
 			t, f := boolEdges(b)
-			switch b.Op {
-			case token.EQL:
+			if b.Op == token.NEQ {
+				t = f
+			}
+			if call.Parent() == login {
 				cmpOK = append(cmpOK, t...)
-			case token.NEQ:
-				cmpOK = append(cmpOK, f...)
+				continue
+			}
+			// in a boolean helper: it may report true only when the comparison said 1
+			h := call.Parent()
+			cs, _ := lreg.site[h].(*ssa.Call)
+			if cs == nil || cs.Parent() != login {
+				continue
+			}
+			implies := true
+			for _, r := range returnsOf(h) {
+				vals := returnValues(r)
+				if len(vals) != 1 {
+					implies = false
+					break
+				}
+				for _, lf := range phiLeaves(vals[0]) {
+					switch v := lf.Val.(type) {
+					case *ssa.Const:
+						if v.Value != nil && v.Value.String() == "true" && !guardedByEdges(h, r, t) {
+							implies = false
+						}
+					default:
+						if lf.Val == ssa.Value(b) && b.Op == token.EQL {
+							continue
+						}
+						if !guardedByEdges(h, r, t) {
+							implies = false
+						}
+					}
+				}
+			}
+			if implies {
+				ht, _ := boolEdges(cs)
+				cmpOK = append(cmpOK, ht...)
 			}
 		}
 	}
@@ -308,9 +460,12 @@ func propC19(c *Ctx) {
 		return ok && s == "POST" && f != nil && f.Name() == "Method"
 	})
 	nSet := 0
-	for _, ci := range callsNamed(login, "github.com/kr/session.Set") {
+	for _, ci := range lreg.Calls() {
+		if calleeName(ci) != "github.com/kr/session.Set" {
+			continue
+		}
 		nSet++
-		ok := cmpSeen && guardedByEdges(login, ci, cmpOK) && guardedByEdges(login, ci, postT)
+		ok := cmpSeen && lreg.Guarded(ci, cmpOK) && lreg.Guarded(ci, postT)
 		c.Check("R19.3", fmt.Sprintf("Login/session.Set#%d", nSet), instrPos(ci), ok, "session.Set is reached only on the POST arm after ConstantTimeCompare(form password, h.password) == 1")
 	}
 	if nSet == 0 {
@@ -319,7 +474,7 @@ func propC19(c *Ctx) {
 	// session.Set anywhere else?
 	var otherSet []string
 	for _, fn := range w.RepoFuncs() {
-		if fn == login {
+		if lreg.Has(fn) {
 			continue
 		}
 		for _, ci := range callsIn(fn) {
